@@ -22,14 +22,22 @@ sys.setrecursionlimit(100000)
 
 nodes = []
 _tab = {}
+# proven equalities applied at construction time (see congr.discover_aliases): node id -> value, node id -> [(lo, n, value)]
+ALIAS_NODE = {}
+ALIAS_SLICE = {}
 
 
 def reset():
-    global nodes, _tab
+    global nodes, _tab, _vals
     nodes = []
     _tab = {}
+    _vids.clear()
+    _vals = []
+    _add_ids.clear()
     _zcache.clear()
     _deps.clear()
+    ALIAS_NODE.clear()
+    ALIAS_SLICE.clear()
     _ufdecl.clear()
 
 
@@ -130,7 +138,66 @@ def extract(v, lo, n):
             break
     if pos < hi:
         raise AssertionError('extract out of range')
+    if ALIAS_SLICE or ALIAS_NODE:
+        return _apply_aliases(norm(out))
     return norm(out)
+
+
+def _apply_aliases(v):
+    out = []
+    changed = False
+    for seg in v:
+        l, c, n = seg
+        hit = False
+        for nid, lo in l:
+            if nid in ALIAS_SLICE or nid in ALIAS_NODE:
+                hit = True
+                break
+        if not hit:
+            out.append(seg)
+            continue
+        parts = []
+        keep = []
+        for nid, lo in l:
+            rep = None
+            a = ALIAS_NODE.get(nid)
+            if a is not None:
+                rep = _extract_raw_value(a, lo, n)
+            else:
+                for a0, m, val in ALIAS_SLICE.get(nid, ()):
+                    if a0 <= lo and lo + n <= a0 + m:
+                        rep = _extract_raw_value(val, lo - a0, n)
+                        break
+            if rep is None:
+                keep.append((nid, lo))
+            else:
+                parts.append(rep)
+        if not parts:
+            out.append(seg)
+            continue
+        changed = True
+        parts.append(((tuple(keep), c, n),))
+        out.extend(bxor(*parts))
+    return norm(out) if changed else v
+
+
+def _extract_raw_value(v, lo, n):
+    # extract without alias post-processing (the alias values are already in normal form)
+    res = []
+    pos = 0
+    hi = lo + n
+    for l, c, sn in v:
+        a = lo if lo > pos else pos
+        e = pos + sn
+        b = hi if hi < e else e
+        if a < b:
+            d = a - pos
+            m = b - a
+            res.append((tuple([(x, y + d) for x, y in l]), (c >> d) & ((1 << m) - 1), m))
+        pos = e
+        if pos >= hi:
+            break
+    return norm(res)
 
 
 def concat(vs):
@@ -294,13 +361,28 @@ def bor(a, b):
     return norm(out)
 
 
+_vids = {}
+_vals = []
+
+
+def vid(v):
+    """intern a value: one hash of the (possibly large, fragmented) tuple instead of one per dictionary operation"""
+    i = _vids.get(v)
+    if i is None:
+        i = len(_vals)
+        _vids[v] = i
+        _vals.append(v)
+    return i
+
+
+_add_ids = {}    # add node id -> ((vid, coef), ...): flattening nested sums re-uses interned ids instead of re-hashing
+
+
 def lin(w, terms, c):
     M = (1 << w) - 1
     acc = {}
     c &= M
-    stack = list(terms)
-    while stack:
-        t, k = stack.pop()
+    for t, k in terms:
         k &= M
         if k == 0:
             continue
@@ -311,16 +393,17 @@ def lin(w, terms, c):
         if nid is not None:
             o, ww, args = nodes[nid]
             if o == 'add' and ww == w:
-                for tt, kk in args[0]:
-                    stack.append((tt, k * kk))
+                for i, kk in _add_ids[nid]:
+                    acc[i] = (acc.get(i, 0) + k * kk) & M
                 c = (c + k * args[1]) & M
                 continue
-        acc[t] = (acc.get(t, 0) + k) & M
-    ts = tuple(sorted([(t, k) for t, k in acc.items() if k]))
-    if not ts:
+        i = vid(t)
+        acc[i] = (acc.get(i, 0) + k) & M
+    ids = sorted([(i, k) for i, k in acc.items() if k])
+    if not ids:
         return const(c, w)
-    if len(ts) == 1 and ts[0][1] == 1:
-        t = ts[0][0]
+    if len(ids) == 1 and ids[0][1] == 1:
+        t = _vals[ids[0][0]]
         if c == 0:
             return t
         # carry-free case: the summand's low bits are constant and absorb the constant without a carry
@@ -333,7 +416,18 @@ def lin(w, terms, c):
             m += n
         if 0 < m < w and c < (1 << m) and lowc + c < (1 << m):
             return concat([const(lowc + c, m), extract(t, m, w - m)])
-    return full(node('add', w, (ts, c)))
+    key = ('add', w, (tuple(ids), c))
+    nid = _tab.get(key)
+    if nid is None:
+        nid = len(nodes)
+        nodes.append(('add', w, (tuple([(_vals[i], k) for i, k in ids]), c)))
+        _tab[key] = nid
+        _add_ids[nid] = tuple(ids)
+    if ALIAS_NODE:
+        a = ALIAS_NODE.get(nid)
+        if a is not None:
+            return a
+    return full(nid)
 
 
 def add(a, b):
